@@ -1064,6 +1064,8 @@ func (c *FnCtx) enterLoop(li *loopInfo, entry *State, entryReach Term) (*State, 
 		st.locals[a] = c.freshTyped("h_"+a.Comment, a.Type().(*types.Pointer).Elem())
 	}
 	// NEXT first, so that the heap versions introduced below are bounded by the loop-head NEXT
+	lf := c.computeLoopFrame(li)
+	preNext := c.next(entry)
 	if li.modHeaps[nextKey] {
 		before := c.next(st)
 		c.next(c.entry)
@@ -1082,8 +1084,14 @@ func (c *FnCtx) enterLoop(li *loopInfo, entry *State, entryReach Term) (*State, 
 			continue
 		}
 		c.heap(c.entry, k, srt) // make sure version 0 exists
+		pre := c.heap(entry, k, srt)
 		st.heaps[k] = c.fresh("h_"+k, srt)
 		c.heapWellTyped(k, st.heaps[k])
+		if strings.HasPrefix(k, "H_") || strings.HasPrefix(k, "E_") || strings.HasPrefix(k, "M") {
+			if targets, ok := c.preciseTargets(li, lf, k, entry); ok {
+				c.define(frameFact(st.heaps[k], pre, preNext, targets))
+			}
+		}
 	}
 	// havocked locals hold allocated references
 	for a := range li.modLocals {
